@@ -177,9 +177,19 @@ func C20(tier string) {
 				}
 			}
 		}
+		// requests that differ from an earlier one only from the fifth decimal on
+		for _, w := range []refs.XY{{X: 0.31271, Y: 0.32902}, {X: 0.31272, Y: 0.32903}, {X: 0.3127, Y: 0.3290}} {
+			reqs = append(reqs, req{s, [3]float32{1, 1, 1}, w})
+		}
+		nearBlue := s
+		nearBlue.B = refs.XY{X: 0.15004, Y: 0.05996}
+		reqs = append(reqs, req{nearBlue, [3]float32{1, 1, 1}, refs.D65pub})
 		n := len(reqs)
 		for l := 1; l <= 3; l++ {
 			tot := ipow(n, l)
+			if l == 3 && tier != "thorough" {
+				tot = 0 // quick: all singles and pairs; triples in thorough
+			}
 			for idx := 0; idx < tot; idx++ {
 				q := idx
 				var trace []string
@@ -290,6 +300,36 @@ func C20(tier string) {
 			r.Eval(evals)
 			r.DistinctN(distinct)
 		})
+	}
+
+	// nearly singular but invertible matrices: a dependent third column with one
+	// entry moved so that the determinant takes a prescribed small value
+	{
+		vals := []float64{-3.9, -3.3, -2.9, 2.7, 3.1, 3.5, 3.7, 3.9, 0.7, -1.3}
+		cnt := 0
+		for a := 0; a < len(vals); a++ {
+			for b := 0; b < len(vals); b++ {
+				c0 := refs.V3{vals[a], vals[(a+3)%len(vals)], vals[(a+5)%len(vals)]}
+				c1 := refs.V3{vals[b], vals[(b+7)%len(vals)], vals[(b+2)%len(vals)]}
+				for _, mix := range [][2]float64{{1, 1}, {0.5, -1}, {-0.9, 0.3}} {
+					c2 := refs.V3{mix[0]*c0[0] + mix[1]*c1[0], mix[0]*c0[1] + mix[1]*c1[1], mix[0]*c0[2] + mix[1]*c1[2]}
+					cof := c0[0]*c1[1] - c1[0]*c0[1] // cofactor of entry (row 2, col 2)
+					if math.Abs(cof) < 0.5 {
+						continue
+					}
+					for _, det := range []float64{1.0e-3, 1.3e-3, 2e-3, 3.3e-3, 5e-3, 1e-2, 0.05, -1.7e-3} {
+						m := refs.M3{{c0[0], c1[0], c2[0]}, {c0[1], c1[1], c2[1]}, {c0[2], c1[2], c2[2] + det/cof}}
+						if math.Abs(m[2][2]) > 4 || math.Abs(m.Det()) < 0.9e-3 {
+							continue
+						}
+						checkAlg(m)
+						cnt++
+					}
+				}
+			}
+		}
+		r.Eval(int64(cnt))
+		r.DistinctN(int64(cnt))
 	}
 
 	// ---- (c) exactly singular matrices must panic
